@@ -135,6 +135,8 @@ def signatures(tier):
 CONTEXTS = ["function", "method", "classmethod", "staticmethod", "classdeco"]
 # for signatures with **kwargs: int -- the declared option addition=True does not displace the annotation of **kwargs
 ADDITION_CONTEXTS = ["function-addition", "classdeco-addition"]
+# error collection does not change the contract: a failing parameter keeps the body from running
+COLLECT_CONTEXTS = ["function-collect"]
 
 
 def build(sig: Sig, context):
@@ -147,6 +149,9 @@ def build(sig: Sig, context):
     if context.endswith("-addition"):
         context = context[:-len("-addition")]
         popt = "(options=Options(addition=True))"
+    elif context.endswith("-collect"):
+        context = context[:-len("-collect")]
+        popt = "(options=Options(collect_errors=True))"
     if context == "function":
         src = (f"@utype.parse{popt}\ndef W({sig.text()}):\n    {body}\n"
                f"def REF({sig.text(ref=True)}):\n    return {sig.body()}\n")
@@ -269,7 +274,12 @@ STEPS = ["next", "send('5')", "send(7)", "send('x')", "send(None)"]
 GEN_ANNS = ["full", "iter", "none"]     # Generator[int, int, int] / Iterator[int] / no return annotation
 
 
-def gen_source(kind, body, ann="full"):
+GEN_CTX = ["function", "static-in-parsed-class", "class-in-parsed-class", "parse-above-static"]
+
+
+def gen_source(kind, body, ann="full", ctx="function"):
+    """ctx: where the generator function is declared -- module level, or as a static / class method that reaches the
+    parser still wrapped (class decorated with @utype.parse, or @utype.parse placed above @staticmethod)"""
     is_async = kind.startswith("async")
     eager = kind.endswith("eager")
     text, _ = GEN_BODIES[body]
@@ -283,8 +293,17 @@ def gen_source(kind, body, ann="full"):
         a = {"full": " -> Generator[int, int, int]", "iter": " -> typing.Iterator[int]", "none": ""}[ann]
         head = "def"
     deco = "@utype.parse(eager=True)" if eager else "@utype.parse"
-    return (f"LOG = []\nRLOG = []\n{deco}\n{head} W(){a}:\n{text}"
-            f"{head} REF():\n{text.replace('LOG.append', 'RLOG.append')}")
+    ref = f"{head} REF():\n{text.replace('LOG.append', 'RLOG.append')}"
+    if ctx == "function":
+        return f"LOG = []\nRLOG = []\n{deco}\n{head} W(){a}:\n{text}" + ref
+    ind = "\n".join("    " + ln if ln else ln for ln in text.split("\n"))
+    if ctx == "static-in-parsed-class":
+        cls = f"{deco}\nclass K:\n    @staticmethod\n    {head} W(){a}:\n{ind}"
+    elif ctx == "class-in-parsed-class":
+        cls = f"{deco}\nclass K:\n    @classmethod\n    {head} W(cls){a}:\n{ind}"
+    else:
+        cls = f"class K:\n    {deco}\n    @staticmethod\n    {head} W(){a}:\n{ind}"
+    return f"LOG = []\nRLOG = []\n{cls}W = K.W\n" + ref
 
 
 def run_coro(aw):
@@ -356,7 +375,8 @@ CHUNK = 12
 def shards(tier):
     n = len(signatures(tier))
     sh = [("sig", i, min(i + CHUNK, n)) for i in range(0, n, CHUNK)]
-    sh += [("gen", k, b, a) for k in GEN_KINDS for b in GEN_BODIES for a in GEN_ANNS]
+    sh += [("gen", k, b, a, "function") for k in GEN_KINDS for b in GEN_BODIES for a in GEN_ANNS]
+    sh += [("gen", k, b, "full", c) for k in GEN_KINDS for b in ("seq", "zeroret") for c in GEN_CTX[1:]]
     sh += [("ret", k) for k in ("sync", "async", "async-eager")]
     return sh
 
@@ -364,7 +384,7 @@ def shards(tier):
 def run_shard(shard, tier):
     acc = Acc()
     if shard[0] == "gen":
-        _gen_shard(acc, shard[1], shard[2], tier, shard[3])
+        _gen_shard(acc, shard[1], shard[2], tier, shard[3], shard[4])
         return acc
     if shard[0] == "ret":
         _ret_shard(acc, shard[1], tier)
@@ -376,6 +396,8 @@ def run_shard(shard, tier):
         ctxs = CONTEXTS if (n <= 2 or (tier == "thorough" and n <= 3)) else ["function"]
         if sig.var_kw and n <= 2:
             ctxs = ctxs + ADDITION_CONTEXTS
+        if n <= 2:
+            ctxs = ctxs + COLLECT_CONTEXTS
         for ctx in ctxs:
             try:
                 W, REF, src, env = build(sig, ctx)
@@ -475,7 +497,7 @@ def _coarse(sig, args, kwargs):
 
 
 def _script(src, ctx, call, exp):
-    target = {"function": "W", "method": "K().W", "classdeco": "K().W", "classmethod": "K.W", "staticmethod": "K.W"}[ctx.replace("-addition", "")]
+    target = {"function": "W", "method": "K().W", "classdeco": "K().W", "classmethod": "K.W", "staticmethod": "K.W"}[ctx.replace("-addition", "").replace("-collect", "")]
     return "\n".join([
         "import sys", "sys.path.insert(0, '/verif')", "from utmc.ns import *", "from utmc.canon import canon",
         "ENTERED = []", src, f"expected = {exp!r}", "try:", f"    got = ('value', {call.replace('W(', target + '(', 1)})",
@@ -486,8 +508,8 @@ def _script(src, ctx, call, exp):
         "sys.exit(1 if bad else 0)"]) + "\n"
 
 
-def _gen_shard(acc, kind, body, tier, ann="full"):
-    src = gen_source(kind, body, ann)
+def _gen_shard(acc, kind, body, tier, ann="full", ctx="function"):
+    src = gen_source(kind, body, ann, ctx)
     is_async = kind.startswith("async")
     maxlen = 5 if tier == "thorough" else 4
     for n in range(1, maxlen + 1):
@@ -523,13 +545,13 @@ def _gen_shard(acc, kind, body, tier, ann="full"):
                 same = True
             if not same:
                 step = next((i for i in range(k) if canon(got[i]) != canon(ref[i])), k)
-                fp = f"C08|gen|{kind}|{ann}|{body}|step-{script[step] if step < len(script) else 'end'}|{_gk(got, step)}-vs-{_gk(ref, step)}"
+                fp = f"C08|gen|{kind}{'' if ctx == 'function' else '@' + ctx}|{ann}|{body}|step-{script[step] if step < len(script) else 'end'}|{_gk(got, step)}-vs-{_gk(ref, step)}"
                 acc.violation(fp, f"{kind} generator body '{body}' driven by {list(script)}: observed {got}, the undecorated "
-                                  f"body with int conversion gives {ref}", _gen_script(kind, body, script, ann))
+                                  f"body with int conversion gives {ref}", _gen_script(kind, body, script, ann, ctx))
             elif canon(log) != canon(rlog):
-                fp = f"C08|gen|{kind}|{ann}|{body}|received-values"
+                fp = f"C08|gen|{kind}{'' if ctx == 'function' else '@' + ctx}|{ann}|{body}|received-values"
                 acc.violation(fp, f"{kind} generator body '{body}' driven by {list(script)}: the body received {log}, the "
-                                  f"reference body received {rlog}", _gen_script(kind, body, script, ann))
+                                  f"reference body received {rlog}", _gen_script(kind, body, script, ann, ctx))
             acc.nontrivial_add((kind, body, script))
             if acc.states % 101 == 0:
                 acc.sample(dict(generator=kind, body=body, script=list(script), observed=short(got, 100)))
@@ -539,10 +561,10 @@ def _gk(seq, i):
     return seq[i][0] if i < len(seq) else "none"
 
 
-def _gen_script(kind, body, script, ann="full"):
+def _gen_script(kind, body, script, ann="full", ctx="function"):
     return "\n".join([
         "import sys", "sys.path.insert(0, '/verif')", "from utmc.ns import *", "from utmc.props import c08",
-        "import inspect", f"src = c08.gen_source({kind!r}, {body!r}, {ann!r})", "print(src)", "env = {}", "exec('from utmc.ns import *', env)",
+        "import inspect", f"src = c08.gen_source({kind!r}, {body!r}, {ann!r}, {ctx!r})", "print(src)", "env = {}", "exec('from utmc.ns import *', env)",
         "exec(src, env)", "g = env['W']()", f"is_async = {kind.startswith('async')!r}",
         f"if {kind == 'async'!r} and inspect.iscoroutine(g): g = c08.run_coro(g)",
         f"got = c08.drive(g, {list(script)!r}, is_async, convert=False)",
